@@ -179,6 +179,35 @@ impl SimDir {
         }
         self.syscalls += 3;
     }
+    /// Moves the directory `rel` (with everything in it) so deep below its parent that its path is longer than PATH_MAX:
+    /// `<parent>/deep/<200 x 'a'>/.../<200 x 'b'>/.../<name>`. Two renames whose arguments are both short enough do it.
+    /// Whoever walks the tree by path names meets a directory it cannot list (ENAMETOOLONG) - the one listing error
+    /// that can be provoked on demand by a process running as root. Returns false (nothing changed) if it did not work.
+    pub fn bury(&mut self, rel: &str) -> bool {
+        let src = self.root.join(rel);
+        let Some(parent) = src.parent().map(|p| p.to_path_buf()) else { return false };
+        let Some(name) = src.file_name().map(|n| n.to_os_string()) else { return false };
+        if !src.is_dir() {
+            return false;
+        }
+        let comp_a = "a".repeat(200);
+        let comp_b = "b".repeat(200);
+        // chain A below the parent, chain B in a staging directory next to the root; each about 2400 bytes long
+        let mut a_end = parent.join("deep");
+        while a_end.as_os_str().len() < 2400 {
+            a_end = a_end.join(&comp_a);
+        }
+        let stage = self.holder.with_file_name(format!("{}-bury", self.holder.file_name().map(|n| n.to_string_lossy().into_owned()).unwrap_or_default()));
+        let b_top = stage.join("b0");
+        let mut b_end = b_top.clone();
+        while b_end.as_os_str().len() < 2400 {
+            b_end = b_end.join(&comp_b);
+        }
+        let ok = std::fs::create_dir_all(&a_end).is_ok() && std::fs::create_dir_all(&b_end).is_ok() && std::fs::rename(&src, b_end.join(&name)).is_ok() && std::fs::rename(&b_top, a_end.join("b0")).is_ok();
+        let _ = std::fs::remove_dir_all(&stage);
+        self.syscalls += 6;
+        ok
+    }
     pub fn remove(&mut self, rel: &str) {
         let _ = std::fs::remove_file(self.root.join(rel));
         self.syscalls += 1;
